@@ -2914,3 +2914,405 @@ Proof.
     + apply supdate_nodup. unfold edge_style0. destruct (given (do_edge_colour o)); cbn; repeat constructor. intros [].
     + intros k. rewrite slookup_supdate by exact HNo. unfold prescribed. rewrite edge_style0_lookup. reflexivity.
 Qed.
+
+(* ============================================================================================== *)
+(* 15. mermaid with options: references and labels are those of the plain model; labels = names *)
+
+Definition mgo_opt_kids (o : mopts) (cid pname : str) (j : nat) (ks : list tree) : list mflowx :=
+  (fix go (j : nat) (l : list tree) : list mflowx :=
+     match l with
+     | [] => []
+     | k :: r => mgo_opt o cid pname j k ++ go (S j) r
+     end) j ks.
+
+Lemma mgo_opt_eq o pid pname i g n a ks :
+  mgo_opt o pid pname i (T g n a ks) =
+  MX pid pname (arrow_of o (T g n a ks)) (elabel_of o (T g n a ks)) (pid ++ dash ++ str_of_nat i) n
+     (shaped o (T g n a ks)) (styled o (T g n a ks))
+  :: mgo_opt_kids o (pid ++ dash ++ str_of_nat i) [] 0 ks.
+Proof. reflexivity. Qed.
+Lemma mgo_opt_kids_cons o cid pname j k r :
+  mgo_opt_kids o cid pname j (k :: r) = mgo_opt o cid pname j k ++ mgo_opt_kids o cid pname (S j) r.
+Proof. reflexivity. Qed.
+
+Definition mx_core (f : mflowx) : str * str * str := (mx_from f, mx_to f, mx_to_label f).
+Definition mf_core (f : mflow) : str * str * str := (mf_from f, mf_to f, mf_to_label f).
+
+Lemma mgo_opt_core o : forall t pid pname pl i,
+  map mx_core (mgo_opt o pid pname i t) = map mf_core (mermaid_go pid pl i t).
+Proof.
+  induction t as [g n a ks IH] using tree_ind'. intros pid pname pl i.
+  rewrite mgo_opt_eq, mermaid_go_eq. cbn [map mx_core mf_core mx_from mx_to mx_to_label mf_from mf_to mf_to_label].
+  f_equal. generalize (pid ++ dash ++ str_of_nat i) as cid. intros cid. generalize 0 as j.
+  induction IH as [|k r Hk Hr IHr]; intros j; [reflexivity|].
+  rewrite mgo_opt_kids_cons, mgo_kids_cons, !map_app, (Hk cid [] None j), IHr. reflexivity.
+Qed.
+
+(* with every option: the same references, edges and labels as the plain chart, and the label of
+   every destination is the node's name, written as it is (tree_to_mermaid does not escape) *)
+Theorem mermaid_opt_core o t :
+  map mx_core (mermaid_flows_opt o (compact t)) = map mf_core (mermaid_flows t)
+  /\ map mx_to_label (mermaid_flows_opt o (compact t)) = map tname (tl (pre (compact t))).
+Proof.
+  assert (H1 : map mx_core (mermaid_flows_opt o (compact t)) = map mf_core (mermaid_flows t)).
+  { rewrite mermaid_flows_eq. unfold mermaid_flows_opt. destruct (compact t) as [g n a ks]. cbn [tkids tname].
+    fold (mgo_opt_kids o root_ref (shaped o (T g n a ks)) 0 ks).
+    generalize 0 as j. induction ks as [|k r IH]; intros j; [reflexivity|].
+    rewrite mgo_opt_kids_cons, mgo_kids_cons, !map_app, (mgo_opt_core o k root_ref _ (Some n) j), IH. reflexivity. }
+  split; [exact H1|].
+  transitivity (map (fun c : str * str * str => snd c) (map mx_core (mermaid_flows_opt o (compact t)))).
+  { rewrite map_map. reflexivity. }
+  rewrite H1, map_map. cbn [mf_core snd].
+  change (map (fun x : mflow => mf_to_label x) (mermaid_flows t)) with (map mf_to_label (mermaid_flows t)).
+  rewrite mermaid_flows_eq. destruct (compact t) as [g n a ks]. cbn [tkids tname pre tl].
+  destruct (mit_kids_ok ks (proj2 (Forall_forall _ _) (fun x _ => mit_tree_ok_all x)) root_ref (Some n) 0)
+    as [_ [A2 _]].
+  exact A2.
+Qed.
+
+(* box_norm: the four box-drawing styles, glyph for glyph, are the light style *)
+Lemma box_norm_hstyles :
+  forallb (fun st => match st with
+                     | HS a b c d e f g =>
+                         list_eqb N.eqb (map box_norm [a; b; c; d; e; f; g])
+                                  [g_first arm_glyphs; g_subseq arm_glyphs; g_split arm_glyphs;
+                                   g_middle arm_glyphs; g_last arm_glyphs; g_stem arm_glyphs; g_branch arm_glyphs]
+                     end)
+          [hs_const; hs_const_bold; hs_rounded; hs_double] = true.
+Proof. vm_compute. reflexivity. Qed.
+
+Lemma box_norm_vstyles :
+  forallb (fun st => str_eqb (map box_norm (vs_stem st)) (vs_stem arm_vstyle)
+                     && str_eqb (map box_norm (vs_branch st)) (vs_branch arm_vstyle)
+                     && str_eqb (map box_norm (vs_final st)) (vs_final arm_vstyle))
+          [vs_const; vs_const_bold; vs_rounded; vs_double] = true.
+Proof. vm_compute. reflexivity. Qed.
+
+(* ============================================================================================== *)
+(* 16. horizontal round trip for chains: the text-only decoder returns the tree *)
+
+(* a name survives the rendering: rstrip() and the trimming of blanks leave it alone *)
+Definition clean_name (n : str) : bool := str_eqb (rstrip_ws n) n && str_eqb (trim n) n.
+
+(* r -> n1 -> n2 -> ... (every node has one child, the last one is a leaf) *)
+Fixpoint chain (n : str) (ns : list str) : tree :=
+  match ns with
+  | [] => T None n [] []
+  | m :: r => T None n [] [chain m r]
+  end.
+
+(* the icons of a model style as the spec's record (the same as Corr.RenderCorr.glyphs_of) *)
+Definition glyphs_of_hs (st : hstyle) : hglyphs :=
+  HG (hs_first st) (hs_subseq st) (hs_split st) (hs_middle st) (hs_last st) (hs_stem st) (hs_branch st).
+
+Section ChainRoundTrip.
+  Variables (st : hstyle) (inter : bool).
+  Hypothesis Hb : hs_branch st <> 32%N.
+  Let b := hs_branch st.
+  Let gl := glyphs_of_hs st.
+
+  (* band width of a name *)
+  Definition cw_of (n : str) : nat := if inter then length n else 0.
+
+  Fixpoint chain_cells (n : str) (ns : list str) : list hcell :=
+    match ns with
+    | [] => [HLeaf n]
+    | m :: r => HInt (if inter then n else []) b :: chain_cells m r
+    end.
+
+  Lemma eqb_b_32 : N.eqb b 32%N = false.
+  Proof. apply N.eqb_neq. exact Hb. Qed.
+
+  Definition icell (n : str) : str := if inter then b :: 32%N :: n ++ [32%N; b] else [b; b; b].
+
+  Lemma gl_branch : g_branch gl = b.
+  Proof. reflexivity. Qed.
+
+  (* an inner cell followed by its connector *)
+  Lemma parse_inner n g ws rest :
+    trim n = n ->
+    h_parse_row gl inter (cw_of n :: ws) (icell n ++ g :: rest)
+    = match h_parse_row gl inter ws rest with
+      | Some r => Some (HInt (if inter then n else []) g :: r)
+      | None => None
+      end.
+  Proof.
+    intros Ht. unfold icell, cw_of. destruct inter eqn:EI.
+    - set (cell := b :: 32%N :: n ++ [32%N; b]).
+      assert (Lc : length cell = length n + 4) by (unfold cell; cbn [length]; rewrite app_length; cbn [length]; lia).
+      change (cell ++ g :: rest) with (b :: (32%N :: n ++ [32%N; b]) ++ g :: rest).
+      cbn [h_parse_row]. rewrite gl_branch, N.eqb_refl.
+      change (b :: (32%N :: n ++ [32%N; b]) ++ g :: rest) with (cell ++ g :: rest).
+      replace (Nat.leb (length (cell ++ g :: rest)) (length n + 2)) with false
+        by (symmetry; apply Nat.leb_gt; rewrite app_length; cbn [length]; lia).
+      rewrite <- Lc. rewrite firstn_app_exact, skipn_app_exact, Nat.eqb_refl.
+      assert (N1 : nth 1 cell 0%N = 32%N) by reflexivity.
+      assert (N2 : nth (length n + 2) cell 0%N = 32%N).
+      { unfold cell. replace (length n + 2) with (S (S (length n))) by lia. cbn [nth].
+        rewrite app_nth2 by lia. replace (length n - length n) with 0 by lia. reflexivity. }
+      assert (N3 : nth (length n + 3) cell 0%N = b).
+      { unfold cell. replace (length n + 3) with (S (S (S (length n)))) by lia. cbn [nth].
+        rewrite app_nth2 by lia. replace (S (length n) - length n) with 1 by lia. reflexivity. }
+      rewrite N1, N2, N3, !N.eqb_refl. cbn [andb].
+      assert (HN : trim (firstn (length n) (skipn 2 cell)) = n).
+      { unfold cell. cbn [skipn]. rewrite firstn_app_exact. exact Ht. }
+      rewrite HN. reflexivity.
+    - cbn [app h_parse_row]. rewrite gl_branch, N.eqb_refl. cbn [nth]. rewrite eqb_b_32.
+      cbn [firstn skipn list_eqb]. rewrite !N.eqb_refl. cbn [andb]. reflexivity.
+  Qed.
+
+  (* the cell of a leaf: the rest of the row *)
+  Lemma parse_leaf n ws :
+    clean_name n = true ->
+    h_parse_row gl inter (cw_of n :: ws) (b :: 32%N :: n) = Some [HLeaf n].
+  Proof.
+    intros Hn. apply andb_true_iff in Hn as [_ Ht]. apply str_eqb_eq in Ht.
+    cbn [h_parse_row]. rewrite gl_branch, N.eqb_refl. cbn [nth]. rewrite N.eqb_refl. cbn [skipn]. rewrite Ht.
+    unfold cw_of. destruct inter; [|reflexivity].
+    cbn [length]. replace (Nat.leb (S (S (length n))) (length n + 2)) with true; [reflexivity|].
+    symmetry. apply Nat.leb_le. lia.
+  Qed.
+
+  Fixpoint chain_row (n : str) (ns : list str) : str :=
+    match ns with
+    | [] => b :: 32%N :: n
+    | m :: r => icell n ++ b :: chain_row m r
+    end.
+
+  Lemma parse_chain : forall ns n,
+    forallb clean_name (n :: ns) = true ->
+    h_parse_row gl inter (map cw_of (n :: ns)) (chain_row n ns) = Some (chain_cells n ns).
+  Proof.
+    induction ns as [|m r IH]; intros n HC; cbn [forallb] in HC; apply andb_true_iff in HC as [Hn HC].
+    - cbn [map chain_row chain_cells]. apply parse_leaf. exact Hn.
+    - cbn [map chain_row chain_cells]. rewrite parse_inner.
+      + specialize (IH m HC). cbn [map] in IH. rewrite IH. reflexivity.
+      + apply andb_true_iff in Hn as [_ Ht]. apply str_eqb_eq in Ht. exact Ht.
+  Qed.
+
+  (* ---- the connector columns ---- *)
+  Definition one_run : list (nat * list nat) := [(0, [0])].
+
+  Lemma nth_error_mid {A} (pre : list A) x rest : nth_error (pre ++ x :: rest) (length pre) = Some x.
+  Proof. rewrite nth_error_app2 by lia. rewrite Nat.sub_diag. reflexivity. Qed.
+
+  Lemma chain_cells_head n ns : exists c r, chain_cells n ns = c :: r /\ is_node_cell (Some c) = true.
+  Proof. destruct ns; cbn [chain_cells]; eexists; eexists; split; reflexivity. Qed.
+
+  Lemma h_scan_all_S g guide rows d k :
+    h_scan_all g guide rows d (S k) =
+    match h_scan g (option_map (fun t => inner_counts t d) guide) 0 (h_column rows d)
+                 (map is_node_cell (h_column rows (S d))) None with
+    | Some runs => match h_scan_all g guide rows (S d) k with
+                   | Some r => Some (runs :: r) | None => None end
+    | None => None
+    end.
+  Proof. reflexivity. Qed.
+
+  Lemma scan_chain : forall ns n pre,
+    h_scan_all gl None [pre ++ chain_cells n ns] (length pre) (S (length ns))
+    = Some (repeat one_run (length ns) ++ [[]]).
+  Proof.
+    induction ns as [|m r IH]; intros n pre.
+    - cbn [chain_cells length]. rewrite h_scan_all_S. cbn [h_column map option_map].
+      rewrite nth_error_mid.
+      replace (nth_error (pre ++ [HLeaf n]) (S (length pre))) with (@None hcell)
+        by (symmetry; apply nth_error_None; rewrite app_length; cbn; lia).
+      cbn [is_node_cell h_scan h_scan_all repeat app]. reflexivity.
+    - cbn [chain_cells length]. rewrite h_scan_all_S. cbn [h_column map option_map].
+      rewrite nth_error_mid.
+      destruct (chain_cells_head m r) as [c [rr [EC HC]]].
+      replace (nth_error (pre ++ HInt (if inter then n else []) b :: chain_cells m r) (S (length pre)))
+        with (Some c).
+      2:{ rewrite EC. change (pre ++ HInt (if inter then n else []) b :: c :: rr)
+            with (pre ++ [HInt (if inter then n else []) b] ++ c :: rr).
+          rewrite app_assoc. replace (S (length pre)) with (length (pre ++ [HInt (if inter then n else []) b]))
+            by (rewrite app_length; cbn; lia).
+          symmetry. apply nth_error_mid. }
+      rewrite HC. cbn [h_scan]. rewrite gl_branch, N.eqb_refl. cbn [andb].
+      specialize (IH m (pre ++ [HInt (if inter then n else []) b])).
+      rewrite <- app_assoc in IH. cbn [app] in IH. rewrite app_length in IH. cbn [length] in IH.
+      replace (length pre + 1) with (S (length pre)) in IH by lia. rewrite IH.
+      cbn [repeat app]. reflexivity.
+  Qed.
+
+  Lemma node_cell_chain : forall ns n i,
+    is_node_cell (nth_error (chain_cells n ns) i) = Nat.ltb i (S (length ns)).
+  Proof.
+    induction ns as [|m r IH]; intros n i; cbn [chain_cells length].
+    - destruct i as [|[|i]]; reflexivity.
+    - destruct i as [|i]; [reflexivity|]. cbn [nth_error]. rewrite IH. reflexivity.
+  Qed.
+
+  Lemma nth_runs k d :
+    nth d (repeat one_run k ++ [[]]) [] = if Nat.ltb d k then one_run else [].
+  Proof.
+    destruct (Nat.ltb d k) eqn:E.
+    - apply Nat.ltb_lt in E. rewrite app_nth1 by (rewrite repeat_length; exact E).
+      rewrite (nth_indep _ [] one_run) by (rewrite repeat_length; exact E). apply nth_repeat.
+    - apply Nat.ltb_ge in E. rewrite app_nth2 by (rewrite repeat_length; exact E). rewrite repeat_length.
+      destruct (d - k) as [|[|?]]; reflexivity.
+  Qed.
+
+  Lemma claimed_chain n ns :
+    h_all_claimed [chain_cells n ns] (repeat one_run (length ns) ++ [[]]) = true.
+  Proof.
+    unfold h_all_claimed. apply forallb_forall. intros d Hd. apply in_seq in Hd.
+    rewrite app_length, repeat_length in Hd. cbn [length] in Hd.
+    cbn [h_column map filter]. rewrite node_cell_chain, nth_runs. apply Nat.eqb_eq.
+    destruct (Nat.ltb d (length ns)) eqn:E.
+    - apply Nat.ltb_lt in E. replace (Nat.ltb (S d) (S (length ns))) with true by (symmetry; apply Nat.ltb_lt; lia).
+      reflexivity.
+    - apply Nat.ltb_ge in E. replace (Nat.ltb (S d) (S (length ns))) with false by (symmetry; apply Nat.ltb_ge; lia).
+      reflexivity.
+  Qed.
+
+  (* ---- rebuilding ---- *)
+  Fixpoint dchain (n : str) (ns : list str) : tree :=
+    match ns with
+    | [] => mk_named n []
+    | m :: r => mk_named (if inter then n else []) [dchain m r]
+    end.
+
+  Lemma build_chain : forall ns n pre fuel K,
+    length ns < fuel -> K = length pre + length ns ->
+    h_build fuel [pre ++ chain_cells n ns] (repeat one_run K ++ [[]]) (length pre) 0 = Some (dchain n ns).
+  Proof.
+    induction ns as [|m r IH]; intros n pre fuel K Hf HK; (destruct fuel as [|f]; [lia|]).
+    - cbn [chain_cells h_build nth]. rewrite nth_error_mid. reflexivity.
+    - cbn [chain_cells h_build nth]. rewrite nth_error_mid. rewrite nth_runs.
+      replace (Nat.ltb (length pre) K) with true by (symmetry; apply Nat.ltb_lt; cbn [length] in HK; lia).
+      cbn [one_run assoc_nat Nat.eqb map opt_all].
+      specialize (IH m (pre ++ [HInt (if inter then n else []) b]) f K).
+      rewrite <- app_assoc in IH. cbn [app] in IH. rewrite app_length in IH. cbn [length] in IH, Hf, HK.
+      replace (length pre + 1) with (S (length pre)) in IH by lia.
+      rewrite IH by lia. cbn [dchain]. reflexivity.
+  Qed.
+
+  Lemma match_chain : forall ns n,
+    forallb clean_name (n :: ns) = true -> h_match inter (dchain n ns) (chain n ns) = true.
+  Proof.
+    induction ns as [|m r IH]; intros n HC; cbn [forallb] in HC; apply andb_true_iff in HC as [Hn HC];
+      apply andb_true_iff in Hn as [_ Ht]; apply str_eqb_eq in Ht.
+    - cbn. rewrite Ht, str_eqb_refl. reflexivity.
+    - cbn [dchain chain mk_named h_match is_hole ttag existsb orb negb].
+      assert (HR : is_hole (chain m r) = false) by (destruct r; reflexivity).
+      rewrite HR. cbn [negb orb]. rewrite Ht. destruct inter; rewrite str_eqb_refl, (IH m HC); reflexivity.
+  Qed.
+
+  (* the decoder on the chain's row *)
+  Theorem decode_chain n ns :
+    forallb clean_name (n :: ns) = true ->
+    exists dec, h_decode gl inter (map cw_of (n :: ns)) None [chain_row n ns] = Some dec
+                /\ h_match inter dec (chain n ns) = true.
+  Proof.
+    intros HC. exists (dchain n ns). split; [|apply match_chain; exact HC].
+    unfold h_decode. pose proof (parse_chain ns n HC) as HP. cbn [map opt_all] in HP |- *. rewrite HP.
+    cbn [length]. rewrite map_length.
+    pose proof (scan_chain ns n []) as HS. cbn [app length] in HS. rewrite HS.
+    rewrite claimed_chain.
+    destruct (chain_cells_head n ns) as [c [rr [EC HN]]].
+    cbn [h_column map]. rewrite EC. cbn [nth_error find_root]. rewrite HN. cbn [app find_root].
+    rewrite <- EC.
+    pose proof (build_chain ns n [] (S (S (length ns))) (length ns)) as HBd. cbn [app length] in HBd.
+    apply HBd; lia.
+  Qed.
+End ChainRoundTrip.
+
+(* ---- the model's text for a chain ---- *)
+
+Lemma chain_not_hole n ns : is_hole (chain n ns) = false.
+Proof. destruct ns; reflexivity. Qed.
+
+Lemma compact_chain : forall ns n, compact (chain n ns) = chain n ns.
+Proof.
+  induction ns as [|m r IH]; intros n; [reflexivity|].
+  cbn [chain]. rewrite compact_eq. cbn [compact_kids]. rewrite chain_not_hole, IH. reflexivity.
+Qed.
+
+Lemma height_chain : forall ns n, height (chain n ns) = S (length ns).
+Proof.
+  induction ns as [|m r IH]; intros n; [reflexivity|].
+  cbn [chain height fold_right length]. rewrite IH. rewrite Nat.max_0_r. reflexivity.
+Qed.
+
+Lemma levels_chain {A} (F : list tree -> A) : forall ns n,
+  map (fun k => F (level k (chain n ns))) (seq 0 (S (length ns)))
+  = F [chain n ns] :: match ns with
+                      | [] => []
+                      | m :: r => map (fun k => F (level k (chain m r))) (seq 0 (S (length r)))
+                      end.
+Proof.
+  intros [|m r] n; [reflexivity|].
+  cbn [length]. change (seq 0 (S (S (length r)))) with (0 :: seq 1 (S (length r))).
+  rewrite <- (seq_shift (S (length r)) 0). cbn [map level]. f_equal.
+  rewrite map_map. apply map_ext. intros k. cbn [level chain tkids flat_map]. rewrite app_nil_r. reflexivity.
+Qed.
+
+Lemma band_widths_chain inter : forall ns n,
+  band_widths inter (chain n ns) = map (cw_of inter) (n :: ns).
+Proof.
+  intros ns n. unfold band_widths. rewrite compact_chain, height_chain.
+  revert n. induction ns as [|m r IH]; intros n.
+  - cbn. unfold cw_of. destruct inter; [rewrite Nat.max_0_r|]; reflexivity.
+  - rewrite (levels_chain (fun l => if inter then fold_right Nat.max 0 (map (fun x => length (tname x)) l) else 0)).
+    cbn [map]. rewrite IH. f_equal. cbn [chain map tname fold_right]. unfold cw_of.
+    destruct inter; [rewrite Nat.max_0_r|]; reflexivity.
+Qed.
+
+Lemma padding_depths_chain inter : forall ns n,
+  padding_depths inter (chain n ns) = if inter then map (@length N) (n :: ns) else [].
+Proof.
+  intros ns n. unfold padding_depths. destruct inter; [|reflexivity].
+  rewrite compact_chain, height_chain. unfold level_width.
+  revert n. induction ns as [|m r IH]; intros n.
+  - cbn. rewrite Nat.max_0_r. reflexivity.
+  - rewrite (levels_chain (fun l => max_list (map (fun x => length (tname x)) l))).
+    cbn [map]. rewrite IH. f_equal. cbn [chain map tname max_list fold_right]. apply Nat.max_0_r.
+Qed.
+
+Lemma center_small s w : w <= length s -> center s w = s.
+Proof.
+  intros H. unfold center. replace (w - length s) with 0 by lia. cbn. apply app_nil_r.
+Qed.
+
+Lemma hbranch_chain st inter ws : forall ns n d,
+  forallb clean_name (n :: ns) = true ->
+  (forall i, i <= length ns -> pad_at ws (d + i) <= length (nth i (n :: ns) [])) ->
+  hbranch st inter ws d (chain n ns) = ([chain_row st inter n ns], 0, true).
+Proof.
+  induction ns as [|m r IH]; intros n d HC HW; cbn [forallb] in HC; apply andb_true_iff in HC as [Hn HC].
+  - cbn [chain]. rewrite hbranch_eq. cbv zeta. cbn [is_hole ttag existsb orb negb].
+    rewrite center_small by (specialize (HW 0 (Nat.le_0_l _)); rewrite Nat.add_0_r in HW; exact HW).
+    apply andb_true_iff in Hn as [Hr _]. apply str_eqb_eq in Hr. rewrite Hr. reflexivity.
+  - cbn [chain]. rewrite hbranch_eq. cbv zeta. cbn [is_hole ttag existsb map]. unfold real at 1.
+    rewrite chain_not_hole. cbn [negb orb].
+    rewrite center_small by (specialize (HW 0 (Nat.le_0_l _)); rewrite Nat.add_0_r in HW; exact HW).
+    rewrite (IH m (S d) HC).
+    + unfold hassemble. cbn [map fst snd forallb hd List.last sum_list fold_right length concat app andb].
+      change ((0 + (1 + 0 + 0 - 1)) / 2) with 0. cbn [Nat.add Nat.sub repeat app zip_with chain_row].
+      unfold icell. destruct inter; cbn [app]; rewrite <- ?app_assoc; reflexivity.
+    + intros i Hi. specialize (HW (S i)). cbn [length nth] in HW.
+      replace (S d + i) with (d + S i) by lia. apply HW. lia.
+Qed.
+
+Lemma nth_map_length_le (l : list str) : forall i, nth i (map (@length N) l) 0 <= length (nth i l []).
+Proof. induction l as [|x l IH]; intros [|i]; cbn; try lia. apply IH. Qed.
+
+(* the horizontal text of a chain decodes back to the chain, with the text-only decoder *)
+Theorem hroundtrip_chain st inter n ns :
+  hs_branch st <> 32%N -> forallb clean_name (n :: ns) = true ->
+  exists rows dec,
+    hyield_rows st inter (chain n ns) = Ret rows
+    /\ h_decode (glyphs_of_hs st) inter (band_widths inter (chain n ns)) None rows = Some dec
+    /\ h_match inter dec (chain n ns) = true.
+Proof.
+  intros Hb HC.
+  destruct (decode_chain st inter Hb n ns HC) as [dec [HD HM]].
+  exists [chain_row st inter n ns], dec. split; [|split; [|exact HM]].
+  - unfold hyield_rows. rewrite (hbranch_chain st inter _ ns n 1 HC); [reflexivity|].
+    intros i Hi. rewrite padding_depths_chain. unfold pad_at. cbn [Nat.add Nat.sub]. rewrite Nat.sub_0_r.
+    destruct inter; [|replace (nth i (@nil nat) 0) with 0 by (destruct i; reflexivity); lia].
+    apply nth_map_length_le.
+  - rewrite band_widths_chain. exact HD.
+Qed.
